@@ -98,8 +98,13 @@ def mixture(
 
     unitary_getter = getattr(val, '_unitary_', None)
     result = NotImplemented if unitary_getter is None else unitary_getter()
-    if result is not NotImplemented:
+    if result is not NotImplemented and result is not None:
         return ((1.0, result),)
+    if result is NotImplemented and has_unitary(val):
+        # Unitary values that have no `_unitary_` method (e.g. defined by a decomposition).
+        matrix = unitary(val, None)
+        if matrix is not None:
+            return ((1.0, matrix),)
 
     if default is not RaiseTypeErrorIfNotProvided:
         return default
